@@ -29,6 +29,13 @@ code->spec : TLC (MPSLifeTrace) recomputes the exact cost from the logged archit
              (theta stays fresh) / on all parameters (theta stale).  30% of the models are traced with an input_example of
              batch 2..5: the exact cost does not depend on it (InvBatchIndependent: no cost function reads out_shape[0]).
              Conv options as in C02 (stride changes the output shape the per-invocation metrics are charged for).
+Purity     : frame clause C05.frame - every tensor of model.state_dict() (parameters, theta_alpha, temperature, the constants /
+             masks registered by the features calculators), the value every input features calculator reports and the plain
+             layer attributes are bit-identical before and after get_cost() (checked around the first read, the second read
+             and the probe read); cost read twice gives the same value (C05.order); a cost that is not finite or >= 2^31/100
+             is a VIOLATION (C05.cost ... not representable), never a harness error; any exception of get_cost is logged.
+Two objects : history action fork (deepcopy; original perturbed; history continues on the copy; all clauses on the copy),
+             loadT (load_state_dict of another temperature).  Sanity variant ForkImpl = "shared" must fail.
 Claims     : eval mode / hard_softmax training (plain sampler): cost = exact cost of summary()'s assignment.
              hard Gumbel training: theta is a one-hot of a RANDOM candidate: cost = exact cost of the sampled assignment
              (read from theta_alpha); equality with summary() is NOT claimed.  Coefficients replaced without a forward
@@ -78,7 +85,8 @@ def run(tier: str, seed: int, replay=None) -> int:
                     ("MPSLifeMC_d1_quick", 120, 3, "arch1d"), ("MPSLifeMC_d1pc_quick", 160, 40, "perchannel1d"),
                     ("MPSLifeMC_reuse_quick", 105, 3, "reuse"), ("MPSLifeMC_hist_quick", 240, 40, "histories"),
                     ("MPSLifeMC_modes_quick", 160, 40, "modes"), ("MPSLifeMC_export_quick", 90, 30, "weightsteps"),
-                    ("MPSLifeMC_opts_quick", 90, 3, "convopts")] if q else
+                    ("MPSLifeMC_opts_quick", 75, 3, "convopts"),
+                    ("MPSLifeMC_fork_quick", 120, 30, "fork")] if q else
                    [("MPSLifeMC_arch_quick", 0, 0, "arch"), ("MPSLifeMC_arch_thorough", 1500, 3, "arch4"),
                     ("MPSLifeMC_tuples_thorough", 2000, 2, "tuples"), ("MPSLifeMC_ne16_quick", 2000, 2, "ne16"),
                     ("MPSLifeMC_few_thorough", 1200, 3, "few"), ("MPSLifeMC_pc_quick", 4500, 500, "perchannel"),
@@ -87,8 +95,9 @@ def run(tier: str, seed: int, replay=None) -> int:
                     ("MPSLifeMC_reuse_thorough", 1500, 3, "reuse"), ("MPSLifeMC_reuse1d_thorough", 600, 3, "reuse1d"),
                     ("MPSLifeMC_hist_thorough", 4000, 120, "histories"), ("MPSLifeMC_histpc_quick", 1500, 300, "histories-pc"),
                     ("MPSLifeMC_modes_thorough", 2500, 150, "modes"), ("MPSLifeMC_export_thorough", 1500, 100, "weightsteps"),
-                    ("MPSLifeMC_opts_quick", 0, 0, "convopts"), ("MPSLifeMC_opts1d_quick", 0, 0, "convopts1d")]),
-        "sanity": ["MPSLifeMC_nokf05", "MPSLifeMC_pinned", "MPSLifeMC_cachefwd"],
+                    ("MPSLifeMC_opts_quick", 0, 0, "convopts"), ("MPSLifeMC_opts1d_quick", 0, 0, "convopts1d"),
+                    ("MPSLifeMC_fork_thorough", 1500, 100, "fork")]),
+        "sanity": ["MPSLifeMC_nokf05", "MPSLifeMC_pinned", "MPSLifeMC_cachefwd", "MPSLifeMC_sharedfork"],
         "n_random": 60 if q else 700, "random_sels": 2 if q else 3, "max_nodes": 9 if q else 12, "p_pc": 0.5,
         "procs": 8, "tlc_workers": 8,
     }
